@@ -248,7 +248,16 @@ fn lcd(host: &mut Host, name: &str, op: &Value) -> Result<Option<Value>, String>
                 let addr = u(step, 1)? as u32;
                 let mut ret = Value::Null;
                 let before = if want_pixels && kind == 0 { Some(pixels(lcd)) } else { None };
-                if kind == 0 {
+                if kind == 3 {
+                    lcd.reset();       // the controllers' reset line (power-on state)
+                } else if kind == 4 {
+                    // the host fetches a frame
+                    let px: Vec<String> = pixels(lcd)
+                        .iter()
+                        .map(|row| row.iter().map(|p| if *p != 0 { '1' } else { '0' }).collect())
+                        .collect();
+                    ret = json!(px);
+                } else if kind == 0 {
                     lcd.write(addr, u(step, 2)? as u8);
                 } else {
                     ret = match lcd.read(addr) {
